@@ -122,3 +122,28 @@ check("C15",
       "Integer-ms time (binary-float ties at an exact boundary out of scope); one time.time() per reactor turn; PING/PONG transparency is proved on a "
       "token-level dispatch model (byte level: C07 + correspondence).",
       "Coq proofs (lia) over event lists on translated timer callbacks + vm_compute correspondence with the real Broker under a virtual clock", "DESIGN.md 5/C15")
+
+check("C08",
+      "Theorems (Coq, over all op sequences Send/RecvOH/RecvHO/DropProxy/HandleRefLost/SendHome/ConnLost with FIFO channels): the same proxy for "
+      "every re-delivery while it is held and at most one live proxy per clid, for all histories satisfying the exact guard that excludes D16 "
+      "(_partial), and the 15-step refutation (D16, known finding, replayed on real Brokers); the clid put on the wire was allocated for that object "
+      "and for no other; a proxy sent home and a call through a proxy resolve to the original object in EVERY history. Tie: "
+      "ReferenceableTracker.send/decref translated (PyLite), getRef / _handleRefLost / freeYourReferenceTracker expressions and table shape facts read "
+      "from source (incl. the dead-weakref test of both getRefs); 543 random histories on two real Brokers with message-granular delivery compared "
+      "with the model after every action (tables, counts, Python is-identity classes of delivered objects vs model proxy ids, resolved objects) by "
+      "vm_compute. Direct oracle: identity of delivered references vs held proxies, home 'is' original, calls reach only the original, bound-method "
+      "witness, three-Tub gift scenario in all 6 role orders.",
+      "Gifts are checked on real Tubs only (not in the Coq model). Modelled, not verified: CPython refcount collection of proxies (DropProxy is an "
+      "explicit op), FIFO transport and eventual queue, Banana serialisation; one direction of one connection.",
+      "Coq invariant proof (guarded) + refutation witness + trace validation (vm_compute) on real Brokers + identity oracle", "DESIGN.md 5/C08")
+
+check("C09",
+      "Theorems (Coq, all op sequences of the same model): counting invariant refcount = received + my-references in flight + decrefs in flight "
+      "(+ discarded); no early release (a live proxy or a reference in flight => the owner maps the clid, to the object it was allocated for); the "
+      "assertion in decref never fails; clids are never reused (allocation log NoDup, functional, monotone); no leak at quiescence when no "
+      "my-reference was discarded (_partial) and its refutation (D9, known finding); connection loss empties both tables for good. Tie and "
+      "correspondence as C08 (543 histories quick / 6000 thorough, tables and counts compared after every action). Direct oracle: export / import "
+      "tables, every decref call recorded by a wrapper, weakref liveness after drain, tables after connection loss.",
+      "Modelled, not verified: CPython refcount collection of proxies, FIFO transport and eventual queue, Banana serialisation; one direction of one "
+      "connection.",
+      "Coq invariant proof over an executable model + translated counting functions + trace validation (vm_compute) on real Brokers", "DESIGN.md 5/C09")
